@@ -1,6 +1,6 @@
 (** Statement pins for C13: the property theorems must have exactly these
     types, so they cannot be weakened silently. *)
-From RsM Require Import Lib.MachInt Model.Subs Model.SubsSpec Proofs.SubsInv Proofs.SubsTiming Props.C13.
+From RsM Require Import Lib.MachInt Model.Subs Model.SubsSpec Proofs.SubsInv Proofs.SubsTiming Proofs.SubsSlot Props.C13.
 Open Scope N_scope.
 
 Check (C13_no_lost_change : forall ops,
@@ -53,3 +53,16 @@ Check (C13_backoff_capped : forall x,
 Check (C13_expiry : forall ops now s,
   Forall op_time_ok ops ->
   In s (subs (fst (step (run init ops) (OWake now)))) -> expiry_ok s now = true).
+Check (C13_established_is_kept : forall ops sid x,
+  let st := run init ops in
+  find_ctx sid (ctxs st) = Some x -> x_prim x = true ->
+  let st' := fst (step st (OCtxEnd sid EOk)) in
+  (exists s, In s (subs st') /\ s_id s = sid) /\
+  reporting st' = reporting st /\ cancelled st' = cancelled st).
+Check (C13_cancelled_report_is_dropped : forall ops r res,
+  let st := run init ops in
+  reporting st = Some r -> cancelled st = true ->
+  let st' := fst (step st (OCtxEnd (s_id r) res)) in
+  subs st' = subs st /\ reporting st' = None /\ cancelled st' = false /\ ~ In (s_id r) (all_ids st')).
+Check (C13_slot_before_fix :
+  ids_in_table (run_gen true false init slot_witness) = [1] /\ ids_in_table (run init slot_witness) = [2]).
